@@ -10,7 +10,7 @@ use crate::spawn;
 use std::io::{Read, Write};
 use subprocess::{Exec, Redirection};
 
-const HANDLES: [&str; 10] = ["popen", "join", "capture", "stream_stdout", "stream_stderr", "stream_stdin", "pl_stream_stdout", "pl_stream_stdin", "pl_join", "pl_capture"];
+const HANDLES: [&str; 12] = ["popen", "join", "capture", "stream_stdout", "stream_stderr", "stream_stdin", "pl_stream_stdout", "pl_stream_stdin", "pl_join", "pl_capture", "communicate", "pl_communicate"];
 
 struct Behaviour {
     name: &'static str,
@@ -19,7 +19,7 @@ struct Behaviour {
     needs_eof: bool,
 }
 
-const BEHAVIOURS: [Behaviour; 10] = [
+const BEHAVIOURS: [Behaviour; 11] = [
     // the program cannot be started at all: the forked child of the attempt is nobody's to reap but the handle's
     Behaviour { name: "fails-to-start", script: "x0", produces: 0, needs_eof: false },
     // closes its stdin at once (the parent's input runs into EPIPE), then writes more than a pipe holds
@@ -31,6 +31,8 @@ const BEHAVIOURS: [Behaviour; 10] = [
     Behaviour { name: "writes-below-capacity", script: "w@:60000:4096,x0", produces: 60000, needs_eof: false },
     Behaviour { name: "writes-above-capacity", script: "w@:300000:8192,x0", produces: 300000, needs_eof: false },
     Behaviour { name: "unbounded-writer", script: "w@:4000000000:65536,x0", produces: 4_000_000_000, needs_eof: false },
+    // `while :; do echo ...; done`: ignores write errors, so closing the read end releases it only through SIGPIPE
+    Behaviour { name: "writes-forever-ignoring-errors", script: "Z@", produces: 4_000_000_000, needs_eof: false },
     Behaviour { name: "reads-then-writes", script: "R,w@:200000:4096,x0", produces: 200000, needs_eof: true },
 ];
 
@@ -44,7 +46,7 @@ fn passthrough(ctx: &Ctx, idx: u32, rep: &std::path::Path) -> Exec {
     Exec::cmd(&ctx.vchild).args(&["stage", &idx.to_string(), "1", "0", "0", "0", "0"]).arg(rep)
 }
 
-fn case(ctx: &mut Ctx, rng: &mut Rng, i: u64) {
+fn case(ctx: &mut Ctx, rng: &mut Rng, i: u64, sigpipe_blocked: bool) {
     let handle = HANDLES[(i % HANDLES.len() as u64) as usize];
     let b = &BEHAVIOURS[((i / HANDLES.len() as u64) % BEHAVIOURS.len() as u64) as usize];
     let drop_point = (i / (HANDLES.len() * BEHAVIOURS.len()) as u64) % 3; // 0 nothing consumed, 1 partly, 2 fully
@@ -58,10 +60,13 @@ fn case(ctx: &mut Ctx, rng: &mut Rng, i: u64) {
     }
     // a child that waits for EOF on an *inherited* stdin would wait for the worker's own stdin file: that is EOF at once (regular file)
     // an unbounded writer to an inherited stdout would fill the worker's scratch file: skip
-    if b.name == "unbounded-writer" && !reads_stream {
+    let unbounded = b.produces >= 4_000_000_000;
+    if unbounded && !reads_stream {
         return;
     }
-    if detached && matches!(handle, "join" | "capture" | "pl_join" | "pl_capture") && b.name == "unbounded-writer" {
+    // a Communicator does not own the processes (they are detached by definition): only a failed start is its to clean up
+    let communicator = matches!(handle, "communicate" | "pl_communicate");
+    if communicator && b.name != "fails-to-start" {
         return;
     }
     run::begin_case();
@@ -90,8 +95,20 @@ fn case(ctx: &mut Ctx, rng: &mut Rng, i: u64) {
         1 => (b.produces / 3).min(100_000),
         _ => u64::MAX,
     };
-    let want_read = if b.name == "unbounded-writer" { want_read.min(500_000) } else { want_read };
-    let tag = format!("{}/{}/{}{}", handle, b.name, ["nothing-consumed", "partly-consumed", "fully-consumed"][drop_point as usize], if detached { "/detached" } else { "" });
+    let want_read = if unbounded { want_read.min(500_000) } else { want_read };
+    let tag = format!("{}/{}/{}{}{}", handle, b.name, ["nothing-consumed", "partly-consumed", "fully-consumed"][drop_point as usize], if detached { "/detached" } else { "" }, if sigpipe_blocked { "/spawned-with-SIGPIPE-blocked" } else { "" });
+    // the environment of the spawning thread is the caller's business: here it has SIGPIPE (and SIGUSR1) blocked
+    let mut old_mask: libc::sigset_t = unsafe { std::mem::zeroed() };
+    if sigpipe_blocked {
+        unsafe {
+            let mut set: libc::sigset_t = std::mem::zeroed();
+            libc::sigemptyset(&mut set);
+            libc::sigaddset(&mut set, libc::SIGPIPE);
+            libc::sigaddset(&mut set, libc::SIGUSR1);
+            libc::pthread_sigmask(libc::SIG_BLOCK, &set, &mut old_mask);
+        }
+        ctx.count("handles_exercised_with_SIGPIPE_blocked_in_the_spawning_thread", 1);
+    }
     let input = vec![b'i'; 150_000];
     let m = run::monitored(|| -> Result<String, String> {
         match handle {
@@ -158,9 +175,15 @@ fn case(ctx: &mut Ctx, rng: &mut Rng, i: u64) {
                 let pl = if b.needs_eof { pl.stdin(input.clone()) } else { pl };
                 pl.capture().map(|c| format!("{:?} {} bytes", c.exit_status, c.stdout.len())).map_err(|e| e.to_string())
             }
+            "communicate" => e.stdout(Redirection::Pipe).communicate().map(|c| { drop(c); "communicator dropped".to_string() }).map_err(|e| e.to_string()),
+            // the first command starts, the scripted one (which cannot be started) comes second
+            "pl_communicate" => (p1 | e).communicate().map(|c| { drop(c); "communicator dropped".to_string() }).map_err(|e| e.to_string()),
             _ => unreachable!(),
         }
     });
+    if sigpipe_blocked {
+        unsafe { libc::pthread_sigmask(libc::SIG_SETMASK, &old_mask, std::ptr::null_mut()) };
+    }
     let evs = m.events();
     let pids = spawn::forked_pids(&evs);
     ctx.count("handles_exercised", 1);
@@ -232,5 +255,6 @@ pub fn run(ctx: &mut Ctx) {
     let total = (HANDLES.len() * BEHAVIOURS.len() * 3 * 2) as u64;
     ctx.max("tuples_enumerated", total as i64);
     let reps = ctx.n(3, 40);
-    ctx.family("tuples", total * reps, |ctx, rng, i| case(ctx, rng, i % total));
+    // every other repetition runs with SIGPIPE blocked in the spawning thread
+    ctx.family("tuples", total * reps, move |ctx, rng, i| case(ctx, rng, i % total, (i / total) % 2 == 1));
 }
